@@ -174,8 +174,10 @@ def _style_tables_in_worksheet(
             column_unit_cells = [t[1] for t in table_rows[2:]]
             value_cells = [t[2:] for t in table_rows[2:]]
         else:
-            column_name_cells = table_rows[2]
-            column_unit_cells = table_rows[3]
+            # A table without columns appends empty name and unit rows, which create no cells:
+            # at the end of a sheet these rows do not exist
+            column_name_cells = table_rows[2] if len(table_rows) > 2 else []
+            column_unit_cells = table_rows[3] if len(table_rows) > 3 else []
             value_cells = table_rows[4:]
 
         # Apply all the styles
